@@ -973,6 +973,17 @@ def strip_styles(nodes):
     return [[n[0][:3] if n[0][0] == 3 else n[0], [], strip_styles(n[2])] for n in nodes]
 
 
+def mask_rules(nodes):
+    """the trees with the top/bottom flags blanked: what remains differs only if spans or column styles differ"""
+    out = []
+    for n in nodes:
+        info = n[1]
+        if info:
+            info = [info[0], [[[c[0], [0, 0] + c[1][2:]] for c in row] for row in info[1]]]
+        out.append([n[0], info, mask_rules(n[2])])
+    return out
+
+
 def first_diff(a, b, path='top'):
     if type(a) != type(b):
         return '%s: %r vs %r' % (path, a, b)
@@ -1038,7 +1049,8 @@ def judge(case, io, mo):
         if has_partial_overlap(case['doc']):
             return dict(violation=False, key='C10:borders:partial-overlap', expected=spec_tree,
                         what='borders differ only in a table where a \\cline partly overlaps a \\multicolumn cell: ' + str(d))
-        return dict(violation=True, key='C10:borders', expected=spec_tree, what='spans/borders/column styles differ: ' + str(d))
+        sub = 'rules' if mask_rules(i_tree) == mask_rules(spec_tree) else 'colspec'
+        return dict(violation=True, key='C10:borders:' + sub, expected=spec_tree, what='spans/borders/column styles differ: ' + str(d))
     if m_dig[:1] != [0] or i_tree != m_dig[1] or m_dig[2] != []:
         return dict(violation=False, key='C10:doc:digest', expected=m_dig, what='Model digests differently: ' + str(first_diff([0, i_tree, []], m_dig)))
     if i_items != m_items:
